@@ -43,6 +43,31 @@ fn main() {
             let dup = sys.reqs.clone();
             sys.reqs.extend(dup);
         }
+        if i % 6 == 5 {
+            // lower-priority requests on top: a pair that contradicts itself on one variable (that level
+            // solves but stays unsatisfied, so the previous level is what is returned and the analysis
+            // must be about the kept requests only), or one the planted point already satisfies
+            let nv0 = sys.guesses.len();
+            if nv0 > 0 {
+                let levels = 1 + rng.below(2) as u32;
+                for lvl in 1..=levels {
+                    let v = rng.below(nv0) as u32;
+                    let base = sys.planted.as_ref().map(|xs| xs[v as usize]).unwrap_or(0.0);
+                    if rng.chance(2, 3) {
+                        let gap = sys.scale.max(1.0) * (0.5 + rng.unit());
+                        sys.reqs.push(ConstraintRequest::new(Constraint::Fixed(v, base - gap), lvl));
+                        sys.reqs.push(ConstraintRequest::new(Constraint::Fixed(v, base + gap), lvl));
+                    } else {
+                        sys.reqs.push(ConstraintRequest::new(Constraint::Fixed(v, base), lvl));
+                    }
+                }
+                // requests are not grouped by priority in the caller's list
+                if rng.chance(1, 2) {
+                    let k = sys.reqs.len();
+                    sys.reqs.swap(0, k - 1);
+                }
+            }
+        }
         let extra = rng.below(3);
         for _ in 0..extra {
             let id = sys.guesses.len() as u32;
@@ -55,8 +80,20 @@ fn main() {
             let pred = with_collapsed_guess(&mut rng, sys.clone());
             let _ = solve_analysis(&pred.reqs, pred.guesses.clone(), pred.config());
         }
-        let Ok(o) = solve_analysis(&sys.reqs, sys.guesses.clone(), sys.config()) else { continue };
+        let o = match solve_analysis(&sys.reqs, sys.guesses.clone(), sys.config()) {
+            Ok(o) => o,
+            Err(e) => {
+                if std::env::var("DUMP_C05_DEBUG").is_ok() {
+                    eprintln!("skip {i}: error {:?}", e.error);
+                }
+                continue;
+            }
+        };
         if o.outcome.is_unsatisfied() || o.outcome.iterations() > 15 {
+            if std::env::var("DUMP_C05_DEBUG").is_ok() {
+                eprintln!("skip {i}: unsatisfied {:?} iterations {} prio_solved {} prios {:?}", o.outcome.unsatisfied(), o.outcome.iterations(), o.outcome.priority_solved(), sys.reqs.iter().map(|r| format!("{} {:?}", r.priority(), r.constraint())).collect::<Vec<_>>());
+                eprintln!("   guesses {:?} final {:?}", sys.guesses, o.outcome.final_values());
+            }
             continue;
         }
         let x = o.outcome.final_values().to_vec();
@@ -86,8 +123,9 @@ fn main() {
                 rows.push(row);
             }
         }
+        let fell_back = sys.reqs.iter().any(|r| r.priority() > o.outcome.priority_solved());
         println!(
-            "DOF {{\"nvars\": {nv}, \"degenerate\": {flagged}, \"reported\": {:?}, \"rows\": [{}], \"scale\": {}, \"requests\": [{}], \"x\": [{}]}}",
+            "DOF {{\"fell_back\": {fell_back}, \"nvars\": {nv}, \"degenerate\": {flagged}, \"reported\": {:?}, \"rows\": [{}], \"scale\": {}, \"requests\": [{}], \"x\": [{}]}}",
             o.analysis.underconstrained(),
             rows.iter().map(|r| format!("[{}]", r.iter().map(|v| format!("{v:e}")).collect::<Vec<_>>().join(", "))).collect::<Vec<_>>().join(", "),
             sys.scale,
